@@ -29,6 +29,8 @@ type c16In struct {
 	Fail      int   `json:"fail"`
 	Finally   int   `json:"finally"`
 	ErrListenerMS int `json:"err_listener_ms,omitempty"` // >0: the body registers an error listener that takes this long
+	SpawnFail bool  `json:"spawn_fail,omitempty"` // the last spawning command fails itself right after spawning
+	Spawn     bool  `json:"spawn,omitempty"` // nested tasks are started without waiting for them (the body goes on while they work)
 	KillBody  bool  `json:"kill_body,omitempty"` // the failing command of the body kills its scope instead of returning an error
 	StopAt    int   `json:"stop_at,omitempty"` // >0: the body stops its own scope (no error) before step stop_at-1
 	Second    bool  `json:"second,omitempty"` // a second try block (succeeding body, success + finally handlers) follows in the same scope
@@ -59,6 +61,8 @@ func c16Gen(r *Rand, tier string) interface{} {
 	if in.FailAt >= 0 && r.Chance(1, 4) {
 		in.KillBody = true
 	}
+	in.Spawn = len(in.Nested) > 0 && r.Bool()
+	in.SpawnFail = in.Spawn && r.Chance(1, 3)
 	return in
 }
 
@@ -80,8 +84,17 @@ func (in *c16In) body() string {
 			sb.WriteString("stopscope --id=b\n")
 		}
 		for j, pos := range in.Nested {
+			if pos == k && in.Spawn && !in.NestFail[j] {
+				if in.SpawnFail && j == len(in.Nested)-1 {
+					// the command that spawned the task fails at once: the body is over while the task works
+					fmt.Fprintf(&sb, "spawn --id=b.n%d --ms=%d --failid=b\n", j, in.NestMS[j])
+					continue
+				}
+				fmt.Fprintf(&sb, "spawn --id=b.n%d --ms=%d\n", j, in.NestMS[j])
+				continue
+			}
 			if pos == k {
-				fmt.Fprintf(&sb, "pip:run --name=n%d --silent=true --body=<<EOB\nbegin --id=b.n%d\nwork --id=b.n%d --ms=%d\n", j, j, j, in.NestMS[j])
+				fmt.Fprintf(&sb, "pip:run --name=n%d --silent=true --body=<<EOB\nbegin --id=b.n%d\nslowwork --id=b.n%d --ms=%d\n", j, j, j, in.NestMS[j])
 				if in.NestFail[j] {
 					fmt.Fprintf(&sb, "fail --id=b.n%d\n", j)
 				}
@@ -171,6 +184,9 @@ func c16Run(inI interface{}, env *Env) *Failure {
 	if len(res.Races) > 0 {
 		rc := res.Races[0]
 		return failf("C16/map-race", fmt.Sprintf("%s|%s", siteName(rc.Site1), siteName(rc.Site2)), "unsynchronised %s access to %s: %s vs %s", rc.Kind, rc.MapLabel, siteName(rc.Site1), siteName(rc.Site2))
+	}
+	if debugOps {
+		fmt.Printf("DEBUG C16 events: %v\nDEBUG C16 outer errors: %v, RunCommand: %v\n", sa.events, outerErr, runErr)
 	}
 	// did the body end with an error? (its failing command was executed, or a nested task failed)
 	bodyFailed := false
